@@ -35,7 +35,7 @@ void h_get_qualified(void)
   type_t* u = plain_type(); type_t* u2 = plain_type();
   /* any earlier normal-form node as witness: qualifiers non-empty, main variant not qualified (table invariant, L-history) */
   unsigned long qw = nondet_ulong(); __CPROVER_assume(qw != 0);
-  W = nondet_bool() ? earlier_qualified(qw, nondet_bool() ? u : u2) : 0;
+  W = nondet_bool() ? earlier_qualified(qw, nondet_bool() ? u : u2) : 0; WT0 = (void*)&f->f_qualifieds;      /* an element of THIS table */
   /* the request: qualify either a plain type or an already qualified one */
   unsigned long q = nondet_ulong();
   _Bool nested = nondet_bool();
